@@ -8,7 +8,8 @@ import (
 	"github.com/onosproject/onos-config/verifharness/internal/rng"
 )
 
-var attRe = regexp.MustCompile(` att=\d+`)
+var attRe = regexp.MustCompile(` att=\d+( doc=[0-9a-f]*)?`)
+var attOnlyRe = regexp.MustCompile(` att=\d+`)
 
 func mk(id, rule string, p Profile, quick, thorough int, mon func(fw.Case, []string) []string) *fw.Prop {
 	return &fw.Prop{
@@ -21,7 +22,7 @@ func mk(id, rule string, p Profile, quick, thorough int, mon func(fw.Case, []str
 				strings.HasPrefix(line, "v2.drain") || p.Twice
 		},
 		RealOnly: func(line string) bool { return strings.HasPrefix(line, "v2.drain") },
-		// `att=N` (southbound attempts) is an observation of the real run for the monitors only
+		// `att=N` (southbound attempts) and `doc=<hex>` (the document the plugin saw) are observations of the real run for the monitors only
 		Match: func(line, realOut, twinOut string) bool { return attRe.ReplaceAllString(realOut, "") == twinOut },
 		Sigs: map[string]func(fw.Case, []string, string) bool{"dirtyValueHistory": dirtySig,
 			"textualPrefix": textualPrefixSig, "recreateUnderDeleted": recreateSig, "rollbackOfSubtreeDelete": rollbackSig, "refusalWriteLost": refusalWriteLostSig},
@@ -131,7 +132,18 @@ var C09Q = &fw.Prop{
 	Sigs: map[string]func(fw.Case, []string, string) bool{"firstUnapplied": firstUnappliedSig, "serializableWait": serializableWaitSig, "applyFailedSibling": applyFailedSiblingSig},
 }
 
+var docP = Profile{Targets: 2, Sets: 5, Faults: false, Verdicts: true, DevErrors: false, Injections: true,
+	Rollbacks: true, Serializable: true, Persistent: false, Deletes: true, MaxSteps: 220, MultiBias: true, VerdictBias: true, CleanPct: 80, Burst: true, StartConn: true}
+
+// C05P is the protocol part of C05 (the chunking is checked by props/c05): registered under the id
+// C05P and run by ./check C05 as a second correspondence.
+var C05P = mk("C05P",
+	"histories of 1-5 Sets/rollbacks, mostly issued in bursts so that several transactions are in flight on one target, on 1-2 targets, plugin verdicts invalid/absent on about a third of the validations (failing transactions aborted between their neighbours), failed and lost store writes, random / youngest-first / oldest-first scheduling; the fake model plugin records every document it is asked to validate; "+
+		"monitor: when a proposal is merged the leaves that become readable are, leaf for leaf, the document the plugin accepted for that proposal; a proposal the plugin rejected (or with no plugin) is never merged and its transaction is FAILED. Non-trivial = at least one write and a multi-target transaction or a rejecting verdict; distinct = distinct script.",
+	docP, 120, 4000, monitorC05)
+
 func init() {
+	fw.Register(C05P)
 	fw.Register(C09Q)
 	fw.Register(C03)
 	fw.Register(C06)
